@@ -75,6 +75,28 @@ func mayBeNil(p *Program, v ssa.Value, at ssa.Instruction, depth int, seen map[s
 	case *ssa.Call:
 		return callResultMayBeNil(p, x, 0, at, depth, seen, assumed)
 	case *ssa.Parameter:
+		// a helper of the runner's package: what its callers in the package hand it
+		fn := x.Parent()
+		if fn == nil || fnPkg(fn) == nil || depth > 3 || fn.Signature.Recv() != nil {
+			return ""
+		}
+		pi := -1
+		for i, q := range fn.Params {
+			if q == x {
+				pi = i
+			}
+		}
+		for _, caller := range p.PkgFuncs(relPkg(fnPkg(fn).Path())) {
+			for _, c := range callsIn(caller) {
+				cv, isCall := c.(*ssa.Call)
+				if !isCall || c.Common().StaticCallee() != fn || pi < 0 || pi >= len(c.Common().Args) {
+					continue
+				}
+				if w := mayBeNil(p, c.Common().Args[pi], cv, depth+1, seen, assumed); w != "" {
+					return w + " (handed to " + fn.Name() + " by " + caller.Name() + ")"
+				}
+			}
+		}
 		return ""
 	}
 	return ""
@@ -364,33 +386,65 @@ func checkC17(p *Program, r *Report) {
 	{
 		var assumed []string
 		n := 0
-		eachInstr(runBody(runner), func(_ *ssa.BasicBlock, _ int, ins ssa.Instruction) {
-			c, ok := ins.(*ssa.Call)
-			if !ok || !c.Common().IsInvoke() {
-				return
-			}
-			cc := c.Common()
-			if cc.Method.Name() == "Error" {
-				return
-			}
-			vals := []ssa.Value{cc.Value}
-			what := []string{"receiver of " + cc.Method.Name()}
-			if cc.Method.Name() == "Run" {
-				for i, a := range cc.Args {
-					vals = append(vals, a)
-					what = append(what, fmt.Sprintf("argument %d of Run", i))
+		// every part of the runner from which the call of Run is reached (the runner itself, and helpers the run is
+		// delegated to)
+		var onPath []*ssa.Function
+		{
+			parts := runnerParts(runner)
+			reaches := map[*ssa.Function]bool{runBody(runner): true}
+			for changed := true; changed; {
+				changed = false
+				for _, f := range parts {
+					if reaches[f] {
+						continue
+					}
+					for _, c := range callsIn(f) {
+						if g := c.Common().StaticCallee(); g != nil && reaches[g] {
+							reaches[f] = true
+							changed = true
+						}
+					}
 				}
 			}
-			for i, v := range vals {
-				n++
-				key := fmt.Sprintf("sim.RunSingleModelJSON:%s", what[i])
-				if w := mayBeNil(p, v, c, 0, map[ssa.Value]bool{}, &assumed); w != "" {
-					r.Fail("R17.2", key, p.Pos(c.Pos()), fmt.Sprintf("%s may be nil: %s — the runner panics after (or instead of) answering", what[i], w))
-				} else {
-					r.OK("R17.2", key+" is non-nil on every path")
+			for _, f := range parts {
+				if reaches[f] {
+					onPath = append(onPath, f)
 				}
 			}
-		})
+		}
+		for _, part := range onPath {
+			part := part
+			eachInstr(part, func(_ *ssa.BasicBlock, _ int, ins ssa.Instruction) {
+				c, ok := ins.(*ssa.Call)
+				if !ok || !c.Common().IsInvoke() {
+					return
+				}
+				cc := c.Common()
+				if cc.Method.Name() == "Error" {
+					return
+				}
+				vals := []ssa.Value{cc.Value}
+				what := []string{"receiver of " + cc.Method.Name()}
+				if cc.Method.Name() == "Run" {
+					for i, a := range cc.Args {
+						vals = append(vals, a)
+						what = append(what, fmt.Sprintf("argument %d of Run", i))
+					}
+				}
+				for i, v := range vals {
+					n++
+					key := fmt.Sprintf("sim.RunSingleModelJSON:%s", what[i])
+					if part != runner {
+						key = fmt.Sprintf("sim.%s:%s", part.Name(), what[i])
+					}
+					if w := mayBeNil(p, v, c, 0, map[ssa.Value]bool{}, &assumed); w != "" {
+						r.Fail("R17.2", key, p.Pos(c.Pos()), fmt.Sprintf("%s may be nil: %s — the runner panics after (or instead of) answering", what[i], w))
+					} else {
+						r.OK("R17.2", key+" is non-nil on every path")
+					}
+				}
+			})
+		}
 		// helper functions called with possibly-nil results: InitialiseOutputs(model, …)
 		r.Floor("R17.2", "nil-safety obligations", n, 3)
 		for _, a := range uniq(assumed) {
@@ -666,6 +720,17 @@ func checkWarnings(p *Program, r *Report, pk *ssa.Package, runner *ssa.Function)
 		}
 		if fn.Name() == "Initialise" && fn.Signature.Recv() != nil {
 			initialise = fn
+		}
+	}
+	// the part of the runner that calls Initialise is the one that receives the warnings (the run itself may be
+	// delegated further)
+	if initialise != nil {
+		for _, f := range runnerParts(runner) {
+			for _, c := range callsIn(f) {
+				if c.Common().StaticCallee() == initialise {
+					body = f
+				}
+			}
 		}
 	}
 	if find == nil || initialise == nil {
@@ -1110,6 +1175,16 @@ func checkWarnings(p *Program, r *Report, pk *ssa.Package, runner *ssa.Function)
 		if c, ok := ins.(*ssa.Call); ok && c.Common().IsInvoke() && c.Common().Method.Name() == "Run" {
 			runCall = c
 		}
+		// the run may be delegated to a helper of the package (`results = runInitialised(model, inputs, states)`)
+		if c, ok := ins.(*ssa.Call); ok && !c.Common().IsInvoke() && runCall == nil {
+			if h := c.Common().StaticCallee(); h != nil && h.Blocks != nil && fnPkg(h) == fnPkg(body) && h != initialise {
+				for _, hc := range callsIn(h) {
+					if hc.Common().IsInvoke() && hc.Common().Method.Name() == "Run" {
+						runCall = c
+					}
+				}
+			}
+		}
 	})
 	logged := false
 	if runCall != nil {
@@ -1248,6 +1323,8 @@ func checkWarnings(p *Program, r *Report, pk *ssa.Package, runner *ssa.Function)
 		r.Undecided("R17.7", "sim.Initialise:input-row", p.Pos(initialise.Pos()), "no write of an input series found")
 	}
 	_ = strings.Contains
+
+	checkParameterAssembly(p, r, initFns)
 
 	// R17.9: a supplied series is copied into the input array only if its length is the array's time extent
 	r.Rule("R17.9", "unequal-length inputs are a reported problem, not a copy: every path from the lookup of a supplied series to the call that copies it into the input array passes either the allocation of that array with this series' length as its time extent, or the equal side of a comparison of this series' length with another length; a path that reaches the copy unchecked writes past the row, into the next row, or pads silently")
@@ -1425,6 +1502,75 @@ func checkWarnings(p *Program, r *Report, pk *ssa.Package, runner *ssa.Function)
 			}
 		}
 		r.Analysed["R17.12 allocations of the input array judged"] = n12
+	}
+
+	// R17.13: elements of pointer slices of the request may be null
+	r.Rule("R17.13", "a null in the request is not dereferenced: where a list of the request is declared as a slice of pointers (encoding/json decodes a `null` element to a nil pointer), every dereference of an element in package sim — a field access, a load, a method call — is dominated by a nil test of that element")
+	{
+		n13 := 0
+		for _, fn := range p.PkgFuncs("sim") {
+			if len(fn.Blocks) == 0 {
+				continue
+			}
+			k := 0
+			eachInstr(fn, func(_ *ssa.BasicBlock, _ int, ins ssa.Instruction) {
+				ld, ok := ins.(*ssa.UnOp)
+				if !ok || ld.Op != token.MUL {
+					return
+				}
+				ia, ok := ld.X.(*ssa.IndexAddr)
+				if !ok {
+					return
+				}
+				st, ok := ia.X.Type().Underlying().(*types.Slice)
+				if !ok {
+					return
+				}
+				pt, ok := st.Elem().Underlying().(*types.Pointer)
+				if !ok {
+					return
+				}
+				if _, isStruct := pt.Elem().Underlying().(*types.Struct); !isStruct {
+					return
+				}
+				// the slice type is one of package sim's own (a list of the request document)
+				nt, isNamed := ia.X.Type().(*types.Named)
+				if !isNamed || nt.Obj().Pkg() == nil || nt.Obj().Pkg().Path() != modPath+"/sim" {
+					return
+				}
+				for _, ref := range refs(ld) {
+					deref := false
+					switch x := ref.(type) {
+					case *ssa.FieldAddr:
+						deref = x.X == ssa.Value(ld)
+					case *ssa.UnOp:
+						deref = x.Op == token.MUL && x.X == ssa.Value(ld)
+					}
+					if !deref {
+						continue
+					}
+					k++
+					n13++
+					key := fmt.Sprintf("%s:null-element#%d", FuncKey(fn), k)
+					guarded := false
+					for _, g := range guardsAt(ref.Block()) {
+						bo, ok := g.Cond.(*ssa.BinOp)
+						if !ok || !(bo.X == ssa.Value(ld) && isNilConst(bo.Y) || bo.Y == ssa.Value(ld) && isNilConst(bo.X)) {
+							continue
+						}
+						if bo.Op == token.NEQ && g.Val || bo.Op == token.EQL && !g.Val {
+							guarded = true
+						}
+					}
+					if guarded {
+						r.OK("R17.13", FuncKey(fn)+": element of a pointer list dereferenced under a nil test")
+					} else {
+						r.Fail("R17.13", key, p.Pos(ref.Pos()), fmt.Sprintf("an element of the request list `%s` (a slice of pointers) is dereferenced without a nil test: a `null` entry in the JSON document decodes to a nil pointer, and the runner crashes on a well-formed request instead of answering it", nt.Obj().Name()))
+					}
+				}
+			})
+		}
+		r.Analysed["R17.13 dereferences of pointer-list elements"] = n13
 	}
 
 	// R17.10: the whole request is decoded
